@@ -53,15 +53,16 @@ type ClientCfg struct {
 
 // ErrPlan is an error a handler returns.
 type ErrPlan struct {
-	Plain   bool // errors.New(Msg) instead of a *connect.Error
-	Code    uint32
-	Msg     string
-	NilErr  bool // NewError(code, nil)
-	Details []DetailPlan
-	Meta    http.Header
-	CtxErr  bool // wait for the handler's context to finish, return ctx.Err()
-	CtxKind int  // 1 context.Canceled, 2 context.DeadlineExceeded, 3/4 the same wrapped with %w
-	WrapCtx int  // coded error whose cause wraps a context error of a sub-operation: 1 context.Canceled, 2 context.DeadlineExceeded
+	Plain     bool // errors.New(Msg) instead of a *connect.Error
+	Code      uint32
+	Msg       string
+	NilErr    bool // NewError(code, nil)
+	Details   []DetailPlan
+	Meta      http.Header
+	ProxyMeta http.Header // status keys of an upstream error passed through in the error's metadata (a proxying handler)
+	CtxErr    bool        // wait for the handler's context to finish, return ctx.Err()
+	CtxKind   int         // 1 context.Canceled, 2 context.DeadlineExceeded, 3/4 the same wrapped with %w
+	WrapCtx   int         // coded error whose cause wraps a context error of a sub-operation: 1 context.Canceled, 2 context.DeadlineExceeded
 }
 
 type DetailPlan struct {
